@@ -133,6 +133,17 @@ class SB:
     def __bool__(self):
         return ctx.decide(self.t)
 
+    # a boolean used as a number (counting the true elements of a mask): 1 / 0
+    def _num(self):
+        return SR(z3.If(self.t, z3.IntVal(1), z3.IntVal(0)))
+
+    def __add__(self, o):
+        if isinstance(o, rnp.ndarray):
+            return NotImplemented
+        return self._num() + (o._num() if isinstance(o, SB) else o)
+
+    __radd__ = __add__
+
     def __repr__(self):
         return "SB(%s)" % self.t
 
